@@ -1,7 +1,7 @@
 (* C09 -- observations faithfully encode the simulation's ground truth.  Statements only. *)
 From Coq Require Import ZArith List Bool.
 Import ListNotations.
-From PV Require Import Model.Obs Proofs.ObsProofs.
+From PV Require Import Model.Obs Proofs.ObsProofs Model.Nmne Proofs.NmneProofs.
 Open Scope Z_scope.
 
 (* documented bin edges of the threshold encoders, and monotonicity *)
@@ -31,6 +31,18 @@ Proof. exact host_off_reads_default. Qed.
 Theorem c09_slot_alignment : forall (A : Type) (l : list A) (i : nat) a, nth_error l i = Some a ->
   forall j, In (KInt (j + Z.of_nat i), a) (enum_from j l).
 Proof. exact @slot_alignment. Qed.
+
+(* the NMNE leaf of an interface is the bin of the number of malicious frames captured, per direction, since the previous
+   observation of that interface made while its host was ON (frames captured while the host was observed as not ON count
+   towards the next observation); a host that is not ON reads the default *)
+Theorem c09_nmne_leaf_counts_events_since_the_last_observation : forall lo me hi s ops,
+  synced s -> no_on_observation ops ->
+  snd (nstep lo me hi (nrun lo me hi s ops) (Observe true)) =
+  [categorise lo me hi (count_dir true ops); categorise lo me hi (count_dir false ops)] /\
+  synced (fst (nstep lo me hi (nrun lo me hi s ops) (Observe true))).
+Proof. exact observation_counts_events_since_last. Qed.
+Theorem c09_nmne_leaf_of_a_host_that_is_not_on_is_the_default : forall lo me hi s, nstep lo me hi s (Observe false) = (s, [0; 0]).
+Proof. exact off_observation_is_default. Qed.
 
 Example c09_example :
   host_observe {| svc_scan := true; app_scan := false; thr := (0, 5, 10); svc_slots := [Some 1%nat; None]; app_slots := [] |}
